@@ -29,6 +29,10 @@ MENU = [
     ("dot", "a [b], c [b] -> a c", ["x", "x"], {}, False),
     ("sum", "[a] b", ["x"], {}, True),
     ("id", "a b -> b a", ["x"], {}, True),
+    # adapters created once per run and shared by the threads (each adapter has its own compile cache and never consults the registry)
+    ("adapt:red_sum_scale", "a [b]", ["x"], {"scale": 2}, False),
+    ("adapt:el_axpy", "a b, b", ["x", "r"], {"alpha": 3}, False),
+    ("solve_axes", "a b, b", ["x", "r"], {}, False),
 ]
 
 
@@ -104,7 +108,7 @@ def gen_case(seed, cfg, index=0):
 # ------------------------------------------------------------------------------------------------
 # worker side
 # ------------------------------------------------------------------------------------------------
-W = types.SimpleNamespace(table=None, x=None, r=None, back=None, stacks=None)
+W = types.SimpleNamespace(table=None, x=None, r=None, back=None, stacks=None, adapters=None)
 
 
 def worker_init(cfg):
@@ -117,6 +121,7 @@ def worker_init(cfg):
     W.back = {n: einx.backend.get(n) for n in TRIO}
     # single-threaded outcome table: every menu call under every numpy backend, given as object
     W.table = {}
+    _fresh_adapters()
     for cid in range(len(MENU)):
         for n in TRIO:
             W.table[(cid, n)] = _outcome(lambda: _do_call(cid, W.back[n]))
@@ -133,6 +138,8 @@ def _digest(r):
 
     if isinstance(r, str):
         return ["code", hashlib.sha1(r.encode()).hexdigest()[:12]]
+    if isinstance(r, list):
+        return ["py", r]
     a = np.asarray(r)
     return ["val", list(a.shape), str(a.dtype), hashlib.sha1(np.ascontiguousarray(a).tobytes()).hexdigest()[:12]]
 
@@ -149,11 +156,24 @@ def _do_call(cid, backend):
     op, desc, args, kw, graph = MENU[cid]
     ts = [W.x if a == "x" else W.r for a in args]
     kw = dict(kw)
+    if op.startswith("adapt:"):
+        return W.adapters[op[6:]](desc, *ts, **kw)
+    if op == "solve_axes":
+        return sorted((k, int(v)) for k, v in einx.solve_axes(desc, *ts).items())
     if backend is not None:
         kw["backend"] = backend
     if graph:
         kw["graph"] = True
     return getattr(einx, op)(desc, *ts, **kw)
+
+
+def _fresh_adapters():
+    from sim import workload
+
+    W.adapters = {}
+    st = {}
+    for name in ("red_sum_scale", "el_axpy"):
+        W.adapters[name] = workload.get_adapter(seams.WORLD.einx, name, st)
 
 
 class World:
@@ -297,7 +317,9 @@ def make_spec(world):
         set_modules(imported)
         kind = op[0]
         try:
-            if kind == "call":
+            if kind == "call" and MENU[op[1]][0].startswith(("adapt:", "solve_")):
+                st2, out = st, W.table[(op[1], "numpy")]  # fixed backend / no backend: the registry is not consulted
+            elif kind == "call":
                 st2, b = st.get(op[2], [W.x] * len(MENU[op[1]][2]))
                 b.raise_on_import_failure()
                 out = W.table.get((op[1], b.name), ["exc", "?"])
@@ -361,6 +383,7 @@ def exec_case(case, cfg):
     world = World(case)
     for m in world.mods:
         sys.modules.pop(m, None)
+    _fresh_adapters()
     # warm prefix: single-threaded, under every numpy backend
     for cid in case.get("warm", []):
         for n in TRIO:
@@ -509,8 +532,8 @@ def shrink_case(case, klass, cfg):
 # driver side
 # ------------------------------------------------------------------------------------------------
 def plan(tier):
-    n = 6000 if tier == "quick" else 120000
-    return {"groups": [{"env": {"hashseed": 0}, "indices": list(range(n))}], "n_workers": 16, "chunk": 20 if tier == "quick" else 50,
+    n = 4000 if tier == "quick" else 120000
+    return {"groups": [{"env": {"hashseed": 0}, "indices": [i for i in range(n) if i % 4 != 3]}, {"env": {"hashseed": 0, "cache_size": 2}, "indices": [i for i in range(n) if i % 4 == 3]}], "n_workers": 16, "chunk": 20 if tier == "quick" else 50,
             "wall_per_chunk": 900.0, "vacuity": ("ok_calls", 0.3), "cfg": {"wall_per_run": 120, "opcode": tier == "thorough"}, "recycle_after": 2000}
 
 
